@@ -1,0 +1,282 @@
+//go:build verif
+
+package http2
+
+import (
+	"net"
+	"reflect"
+	"sync"
+	"sync/atomic"
+	"unsafe"
+)
+
+// Verification hooks, enabled with `-tags verif` only (see /verif/DESIGN.md
+// section 4.1).  They observe; they never change what the code does, except
+// that a harness may install blocking gates to pin a schedule.
+const verifOn = true
+
+const (
+	vpFrameHeader = iota
+	vpFrame
+	vpHeaderField
+	vpStream
+	vpReqCtx
+	vpHPACK
+	vpCliCtx
+)
+
+// VerifPoolKinds names the pool kinds reported to VerifPoolHook.
+var VerifPoolKinds = []string{"fh", "frame", "hf", "stream", "reqctx", "hpack", "clictx"}
+
+// VerifPoolHook, when set, receives every pool Get (op 'g', after the Get)
+// and Put (op 'p', before the Put) with the object's address.
+var VerifPoolHook func(op byte, kind int, p unsafe.Pointer)
+
+func vptr(o any) unsafe.Pointer {
+	v := reflect.ValueOf(o)
+	if v.Kind() == reflect.Ptr {
+		return v.UnsafePointer()
+	}
+	return nil
+}
+
+func vPoolGet(kind int, o any) {
+	if h := VerifPoolHook; h != nil {
+		h('g', kind, vptr(o))
+	}
+}
+
+func vPoolPut(kind int, o any) {
+	if h := VerifPoolHook; h != nil {
+		h('p', kind, vptr(o))
+	}
+}
+
+// ---------------------------------------------------------------- server
+
+// VerifSrv exposes the progress counters and gauges of one server
+// connection.  Producer counters are bumped before a hand-off, consumer
+// counters after the work is finished, so equality means "nothing in flight".
+type VerifSrv struct {
+	sc *serverConn
+
+	RLFwd      atomic.Int64 // frames the read loop is about to push / has pushed to sc.reader
+	SLTaken    atomic.Int64 // select wake-ups of the stream loop
+	SLFrames   atomic.Int64 // ... of which frames from sc.reader
+	SLHD       atomic.Int64 // ... of which handlerDone notifications
+	SLFinished atomic.Int64 // value of SLTaken when the stream loop last reached its select
+	Dispatched atomic.Int64 // handlers started
+	WQueued    atomic.Int64 // frames about to be / queued on sc.writer
+	WWritten   atomic.Int64 // frames the write loop has finished with
+	WDropped   atomic.Int64 // frames dropped because the write loop is gone
+
+	RLExited, SLExited, WLExited, ServeReturned atomic.Bool
+
+	// gauges sampled by the stream loop each time it reaches its select
+	Strms, OpenStreams, ClosedRing, HdrBytes, BodyBytes, ReaderLen, WriterLen, HDLen atomic.Int64
+	// send windows as the server sees them (sampled at the same point)
+	ClientWindow atomic.Int64
+
+	// optional gates (may block): called by the read loop before it forwards
+	// a frame, and by the stream loop before it selects.
+	RLGate func(fr *FrameHeader)
+	SLGate func()
+
+	// OnAccess receives ownership events (variable, goroutine role).
+	OnAccess func(variable, role string)
+}
+
+type verifSrvHook struct{ v *VerifSrv }
+
+var verifSrvs sync.Map // net.Conn -> *VerifSrv
+
+// VerifSrvFor returns the hook state of the server connection serving c
+// (nil until ServeConn has created it).
+func VerifSrvFor(c net.Conn) *VerifSrv {
+	if v, ok := verifSrvs.Load(c); ok {
+		return v.(*VerifSrv)
+	}
+	return nil
+}
+
+// VerifSrvForget drops the registry entry.
+func VerifSrvForget(c net.Conn) { verifSrvs.Delete(c) }
+
+// VerifOnSrvInit, when set, is called as soon as a server connection exists
+// (before its handshake), so a harness can install gates.
+var VerifOnSrvInit func(c net.Conn, v *VerifSrv)
+
+func vSrvInit(sc *serverConn) {
+	v := &VerifSrv{sc: sc}
+	sc.vh.v = v
+	verifSrvs.Store(sc.c, v)
+	if f := VerifOnSrvInit; f != nil {
+		f(sc.c, v)
+	}
+}
+
+func vServeRet(sc *serverConn) { sc.vh.v.ServeReturned.Store(true) }
+
+func vRLFwd(sc *serverConn, fr *FrameHeader) {
+	v := sc.vh.v
+	if g := v.RLGate; g != nil {
+		g(fr)
+	}
+	v.RLFwd.Add(1)
+}
+
+func vRLExit(sc *serverConn) { sc.vh.v.RLExited.Store(true) }
+
+func vSLIdle(sc *serverConn, strms Streams, openStreams, ring int) {
+	v := sc.vh.v
+	hb, bb := 0, 0
+	for _, s := range strms {
+		hb += len(s.previousHeaderBytes)
+		if s.ctx != nil {
+			bb += len(s.ctx.Request.Body())
+		}
+	}
+	v.Strms.Store(int64(len(strms)))
+	v.OpenStreams.Store(int64(openStreams))
+	v.ClosedRing.Store(int64(ring))
+	v.HdrBytes.Store(int64(hb))
+	v.BodyBytes.Store(int64(bb))
+	v.ReaderLen.Store(int64(len(sc.reader)))
+	v.WriterLen.Store(int64(len(sc.writer)))
+	v.HDLen.Store(int64(len(sc.handlerDone)))
+	v.ClientWindow.Store(sc.clientWindow)
+	v.SLFinished.Store(v.SLTaken.Load())
+	if g := v.SLGate; g != nil {
+		g()
+	}
+}
+
+// kinds for vSLWake
+const (
+	vWakeFrame = iota
+	vWakeHD
+	vWakeTimer
+	vWakeCloser
+)
+
+func vSLWake(sc *serverConn, kind int) {
+	v := sc.vh.v
+	v.SLTaken.Add(1)
+	switch kind {
+	case vWakeFrame:
+		v.SLFrames.Add(1)
+	case vWakeHD:
+		v.SLHD.Add(1)
+	}
+}
+
+func vSLExit(sc *serverConn) { sc.vh.v.SLExited.Store(true) }
+
+func vDispatch(sc *serverConn, strm *Stream) { sc.vh.v.Dispatched.Add(1) }
+
+func vWQ(sc *serverConn)       { sc.vh.v.WQueued.Add(1) }
+func vWDrop(sc *serverConn)    { sc.vh.v.WDropped.Add(1) }
+func vWWritten(sc *serverConn) { sc.vh.v.WWritten.Add(1) }
+func vWLExit(sc *serverConn)   { sc.vh.v.WLExited.Store(true) }
+
+func vAccess(owner any, variable, role string) {
+	if sc, ok := owner.(*serverConn); ok && sc.vh.v != nil {
+		if f := sc.vh.v.OnAccess; f != nil {
+			f(variable, role)
+		}
+	}
+}
+
+// Snapshot of the per-connection scalars a harness logs at quiescence.
+func (v *VerifSrv) LastID() uint32 { return atomic.LoadUint32(&v.sc.lastID) }
+
+// ---------------------------------------------------------------- client
+
+// VerifCli is the hook state of one client connection.
+type VerifCli struct {
+	c *Conn
+	// OnEvent receives (event, stream id, scalar); called at the
+	// linearization points of the client loops.
+	OnEvent func(ev string, stream uint32, n int64)
+	// Gate may block at named points ("wr.afterid", "wr.beforepending", ...).
+	Gate func(point string, stream uint32)
+}
+
+type verifCliHook struct{ v *VerifCli }
+
+// VerifOnCliInit, when set, is called by NewConn.
+var VerifOnCliInit func(c *Conn, v *VerifCli)
+
+func vCliInit(c *Conn) {
+	v := &VerifCli{c: c}
+	c.vh.v = v
+	if f := VerifOnCliInit; f != nil {
+		f(c, v)
+	}
+}
+
+func vCliEv(c *Conn, ev string, stream uint32, n int64) {
+	if v := c.vh.v; v != nil {
+		if f := v.OnEvent; f != nil {
+			f(ev, stream, n)
+		}
+	}
+}
+
+func vCliGate(c *Conn, point string, stream uint32) {
+	if v := c.vh.v; v != nil {
+		if f := v.Gate; f != nil {
+			f(point, stream)
+		}
+	}
+}
+
+// VerifCtxResolveHook receives every attempted delivery into Ctx.Err.
+var VerifCtxResolveHook func(ctx *Ctx, err error, delivered bool)
+
+func vCtxResolve(ctx *Ctx, err error, delivered bool) {
+	if f := VerifCtxResolveHook; f != nil {
+		f(ctx, err, delivered)
+	}
+}
+
+// Client-side scalars for quiescence snapshots.
+func (v *VerifCli) OpenStreams() int32 { return atomic.LoadInt32(&v.c.openStreams) }
+func (v *VerifCli) Pending() int {
+	v.c.sendLck.Lock()
+	defer v.c.sendLck.Unlock()
+	return len(v.c.pending)
+}
+func (v *VerifCli) ReqQueued() int {
+	v.c.reqLck.Lock()
+	defer v.c.reqLck.Unlock()
+	return len(v.c.reqQueued)
+}
+func (v *VerifCli) InLen() int  { return len(v.c.in) }
+func (v *VerifCli) OutLen() int { return len(v.c.out) }
+func (v *VerifCli) WinLen() int { return len(v.c.winCh) }
+
+// ---------------------------------------------------------------- HPACK
+
+// VerifDynTable returns the dynamic table, newest entry first (RFC 7541
+// index 62 first).
+func VerifDynTable(hp *HPACK) [][2][]byte {
+	out := make([][2][]byte, 0, len(hp.dynamic))
+	for i := len(hp.dynamic) - 1; i >= 0; i-- {
+		hf := hp.dynamic[i]
+		out = append(out, [2][]byte{append([]byte(nil), hf.key...), append([]byte(nil), hf.value...)})
+	}
+	return out
+}
+
+// VerifTableLimits returns (current maximum size, maximum allowed by SETTINGS).
+func VerifTableLimits(hp *HPACK) (uint32, uint32) { return hp.maxTableSize, hp.maxTableSizeSettings }
+
+// VerifNextField exposes the block-aware decoder step the server uses.
+func VerifNextField(hp *HPACK, hf *HeaderField, blockStart bool, fieldsProcessed int, b []byte) ([]byte, error) {
+	return hp.nextField(hf, blockStart, fieldsProcessed, b)
+}
+
+// VerifSetSensible marks a header field as sensitive (the public API has no
+// setter; a user gets one by decoding a never-indexed literal).
+func VerifSetSensible(hf *HeaderField, v bool) { hf.sensible = v }
